@@ -24,7 +24,11 @@ LEVEL = ("The layout tables (every C record of bpf/*.c as laid out by clang, the
          "equal / characterised for ALL inputs; ipField_wire/portField_wire prove what each side believes an IPv4/port "
          "field holds (they differ: D10, KF-C06-port-order). Tie: real kernel maps created with the C-declared sizes, "
          "written through cilium by typed values and by the real manager methods, raw bytes read back; the unmodified "
-         "C programs compiled natively report the raw key bytes of every lookup and what they emit for Go-written values.")
+         "C programs compiled natively report the raw key bytes of every lookup and what they emit for Go-written values. "
+         "READING direction (repo ac77db8, purgeSubscriberState): every MapIterator.Next use is replayed as a typed iteration "
+         "(key AND value decoded by the Go types, key handed back to Delete) on raw entries; `x purge` puts the session / "
+         "reverse entry / EIM mapping the compiled nat44_egress wrote into real maps, runs the real DeallocateNAT and "
+         "observes what Go decoded and which entries are left (purge_follows_subscriber_nat_entry, purge_misses_own_wire_address).")
 ASSUME = [
     "the layout translator (harness/cmd/extractlayout: clang record-layout dump + regex over map declarations + go/types) "
     "emits what the sources say; mitigated by the compiled size probe, the typed put/get correspondence on real kernel maps "
